@@ -226,7 +226,19 @@ fn run_call(
         let r = catch_unwind(AssertUnwindSafe(|| -> Result<Vec<u64>, String> {
             let inst = instantiate(&bn, colour)?;
             let g = get_extended_symbolic_graph(&inst, k)?;
-            let res = model_check_formula(&formulas[0], &g)?;
+            // context sets given as closed plain formulae are evaluated on the instantiated network
+            let mut ctx_sets: LabelToSetMap = HashMap::new();
+            if let Some(m) = call["ctx"].as_object() {
+                for (label, spec) in m {
+                    let f = spec["f"].as_str().ok_or("inst_formula: only formula-defined context sets")?;
+                    ctx_sets.insert(label.clone(), model_check_formula_dirty(f, &g)?);
+                }
+            }
+            let res = if ctx_sets.is_empty() {
+                model_check_formula(&formulas[0], &g)?
+            } else {
+                model_check_extended_formula(&formulas[0], &g, &ctx_sets)?
+            };
             let canon = SymbolicAsyncGraph::new(&inst)?;
             Ok(explicit_of(&res, canon.symbolic_context(), &inst).tuples)
         }));
@@ -248,8 +260,23 @@ fn run_call(
         return (out, vec![]);
     }
 
-    let g = match st.graph(k) {
-        Ok(g) => g.clone(),
+    let custom = call["k_map"].as_array().map(|a| a.iter().map(|x| x.as_u64().unwrap_or(0) as u16).collect::<Vec<u16>>());
+    let g_res = if let Some(km) = custom {
+        // a graph whose network variables have DIFFERENT numbers of spare variable sets (public API)
+        (|| -> Result<SymbolicAsyncGraph, String> {
+            let mut map = HashMap::new();
+            for (v, n) in bn.variables().zip(km.iter()) {
+                map.insert(v, *n);
+            }
+            let ctx = biodivine_lib_param_bn::symbolic_async_graph::SymbolicContext::with_extra_state_variables(&bn, &map)?;
+            let unit = ctx.mk_constant(true);
+            SymbolicAsyncGraph::with_custom_context(&bn, ctx, unit)
+        })()
+    } else {
+        st.graph(k).map(|g| g.clone())
+    };
+    let g = match g_res {
+        Ok(g) => g,
         Err(e) => {
             out.insert("outcome".into(), json!("toolerr"));
             out.insert("msg".into(), json!(e));
